@@ -7,7 +7,7 @@
     * `defOK S ft df`   the definition's root/condition type exists and is composite and its
                         selection set is `setOK`: recursively, every response key begins with a letter
                         (or is the unaliased `__typename`), the Go field names of the members of one
-                        selection set are distinct (this excludes the open findings F-20d/F-20e) and
+                        selection set are distinct (this excludes the findings F-20d/F-20e) and
                         the response keys are distinct ignoring letter case, a fragment inside an
                         object selection has a type condition the object satisfies, field types are
                         declared (what validation guarantees);
@@ -154,7 +154,7 @@ theorem decode_preserves_leaves (S : Schema) (docs : List Doc) (out : Output)
 /-! ### The output is well-formed (the model-level "compiles") -/
 
 /-- **gen_wf_partial** — for every run over documents inside the envelope that produced output, with
-    enum constants that do not collide (`enumConstsOK`, excludes F-20f) and provided the declared
+    enum constants that do not collide (`enumValuesOK`, excludes F-20f) and provided the declared
     identifiers of the output are pairwise distinct (`hnames`), the output is well-formed
     (`declsWF`): every identifier a type expression mentions — enum types, `sel…` types, the
     `<F>Fragment` type of every spread fragment — is declared; in every struct (of every `sel…` type,
@@ -163,13 +163,11 @@ theorem decode_preserves_leaves (S : Schema) (docs : List Doc) (out : Output)
     declared field and, when it is a `switch`, switches on a declared field of type `string` (the
     field `__typename` was selected into, whatever its alias).
 
-    Full statement (DESIGN.md `gen_wf`): the same without `hnames`. What is missing is the proof that
-    `sel<Type><n>`, `<Op>Data`, `<F>Fragment` and enum names never coincide; it needs hypotheses on
-    the names (operation/fragment names distinct, no name beginning with `sel`, no composite type name
-    ending in a digit) — and is false without the last one: finding F-20g (`selNode10`), which the
-    attempt to prove it produced. `hnames` is a decidable check on the output. -/
+    Full statement (DESIGN.md `gen_wf`): the same without `hnames`, see `gen_wf`, which needs
+    hypotheses on the names (operation/fragment names distinct, no enum/operation/fragment-derived
+    name beginning with `sel`). `hnames` is a decidable check on the output. -/
 theorem gen_wf_partial (S : Schema) (docs : List Doc) (out : Output)
-    (hS : schemaOK S = true) (hec : enumConstsOK S = true)
+    (hS : schemaOK S = true) (hec : enumValuesOK S = true)
     (hgen : generate S docs = .ok out)
     (hdocs : ∀ d ∈ docs, ∀ df ∈ d.defs, defOK S (fragTypesOf d.defs) df = true)
     (hnames : nodupB (out.decls.map Decl.name) = true) :
@@ -199,13 +197,13 @@ theorem gen_wf_partial (S : Schema) (docs : List Doc) (out : Output)
     exact hst d hd
   · cases hgen
 
-/-- **gen_names_unique** — under the naming assumptions `NamesHyp` (no composite type name ends in a
-    digit; no enum name and no `<Op>Data`/`<F>Fragment` name begins with `sel`; enum names differ
-    from the `…Data`/`…Fragment` names) and with the `…Data`/`…Fragment` names of the run pairwise
-    distinct, every identifier of the output is declared exactly once. The proof needs that
-    `"sel" + typeName + itoa(counter)` is injective in the counter (`sel_name_inj`), which holds
-    exactly because no type name ends in a digit — without that assumption the statement is false
-    (finding F-20g: types `Node` and `Node1` both yield `selNode10`). -/
+/-- **gen_names_unique** — under the naming assumptions `NamesHyp` (no enum name and no
+    `<Op>Data`/`<F>Fragment` name begins with `sel`; enum names differ from the `…Data`/`…Fragment`
+    names) and with the `…Data`/`…Fragment` names of the run pairwise distinct, every identifier of the
+    output is declared exactly once. The proof needs that `"sel" + typeName + "_" + itoa(counter)` is
+    injective in the counter (`sel_name_inj`): the separator of fix 04 makes it so for *all* type names;
+    before the fix it failed for type names ending in a digit (finding F-20g: `Node`, `Node1` both gave
+    `selNode10`), which the first attempt at this proof exposed. -/
 theorem gen_names_unique (S : Schema) (docs : List Doc) (out : Output)
     (hS : schemaOK S = true)
     (hgen : generate S docs = .ok out)
@@ -232,7 +230,7 @@ theorem gen_names_unique (S : Schema) (docs : List Doc) (out : Output)
     exported and pairwise distinct at every depth, and every statement of every generated
     `UnmarshalJSON` names a declared field and switches on a declared `string` field. -/
 theorem gen_wf (S : Schema) (docs : List Doc) (out : Output)
-    (hS : schemaOK S = true) (hec : enumConstsOK S = true)
+    (hS : schemaOK S = true) (hec : enumValuesOK S = true)
     (hgen : generate S docs = .ok out)
     (hdocs : ∀ d ∈ docs, ∀ df ∈ d.defs, defOK S (fragTypesOf d.defs) df = true)
     (hN : NamesHyp S (docNames docs)) (hnd : (docNames docs).Nodup) :
@@ -256,9 +254,13 @@ theorem decode_preserves_leaves_of_naming (S : Schema) (docs : List Doc) (out : 
   decode_preserves_leaves S docs out hS hgen hdocs (gen_names_unique S docs out hS hgen hdocs hN hnd)
     doc hdoc kind name sels hop root hroot fuel data L hL hkeys
 
-/-- The counterexample behind F-20g, in the model: two `sel…` names coincide when one type name is
-    another followed by digits (`Node`, counter 10 and `Node1`, counter 0). -/
+/-- F-20g before fix 04, in the model: without a separator the names of the 11th sel type on `Node`
+    and of the first one on `Node1` coincide; with the separator they differ. -/
 example : n_sel ++ [78, 111, 100, 101] ++ natDigits 10 = n_sel ++ [78, 111, 100, 101, 49] ++ natDigits 0 := by decide
+example : n_sel ++ [78, 111, 100, 101] ++ [95] ++ natDigits 10 ≠ n_sel ++ [78, 111, 100, 101, 49] ++ [95] ++ natDigits 0 := by decide
+
+/-- F-20f after fix 05, in the model: `RED` and `red` get distinct constants `ColorRed`, `Color_red`. -/
+example : (enumConsts [67] [[114, 101, 100], [82, 69, 68]]).map (fun c => c.1) = [[67, 82, 101, 100], [67, 95, 114, 101, 100]] := by decide
 
 /-! ### Non-vacuity of `decode_preserves_leaves`
 
@@ -302,13 +304,12 @@ example : (doc.defs.all (defOK S (fragTypesOf doc.defs))) = true := by decide
 example : (match generate S [doc] with
     | .ok out => nodupB (out.decls.map Decl.name) && out.decls.length == 3
     | .error _ => false) = true := by decide
-example : enumConstsOK S = true := by decide
+example : enumValuesOK S = true := by decide
 example : (match generate S [doc] with
     | .ok out => declsWF out.decls
     | .error _ => false) = true := by decide
 example : (docNames [doc]).Nodup := by decide
 example : NamesHyp S (docNames [doc]) where
-  comp := by decide
   enumNoSel := by intro nm vs h; simp [S] at h
   tdNoSel := by decide
   enumNotTd := by intro nm vs h; simp [S] at h
